@@ -32,7 +32,15 @@ STRESSORS = [
     ("div-zero", 2), ("deep-include", 2), ("repeat-big", 2), ("string-edge", 4), ("scope", 2),
     ("addr-top", 1), ("none", 3), ("unary-chain", 2), ("int-min-div", 1), ("macro-arg-escapes", 2),
     ("truncate-instr", 12), ("suffix-chain", 3), ("out-write-fail", 6), ("empty-define-run", 2),
+    ("directive-mix", 6),
 ]
+
+# every directive of core/AsmContext.cpp / core/directives*.cpp with an operand it can take (input generation only)
+DIRECTIVES = [".list", ".list", ".scope", ".ends", ".func f_%(w)s", ".endf", ".big_endian", ".little_endian", ".bss", ".code",
+              ".align 16", ".align_bits 32", ".align_bytes 8", ".data_fill 0x55, 4", ".entry_point start_%(w)s", ".export lab_%(w)s",
+              ".high_address 0xffff", ".low_address 0x0", ".device x", ".pragma x", ".msp430_cpu4", ".65816", ".set v_%(w)s = 5",
+              "v2_%(w)s equ 7", ".def d_%(w)s 3", ".varuint 300", ".varuint32 70000", ".dc.w 1", ".dc.b 2", ".dc.l 3", ".dq 1", ".dc64 2",
+              ".asciiz \"z\"", ".resw 2", ".end"]
 
 
 def long_name(rng, n):
@@ -49,7 +57,7 @@ class C16(Engine):
     prop = "C16"
     title = "naken_asm never crashes, hangs or corrupts memory"
     quick_budget = 45
-    quick_runs = 5000
+    quick_runs = 14500
     thorough_budget = 1200
     variants = ("small",)
     thorough_runs = 100000
@@ -63,8 +71,12 @@ class C16(Engine):
                    "image span is kept <= 2^24 bytes except in the explicit addr-top probe (byte-wise writers are slow, not hung, on wider spans)",
                    "shift / signed-overflow / alignment UB is not monitored (outside the statement)"]
 
+    def lit_sweep(self):
+        from engines import c12
+        return c12.C12.num_sweep()
+
     def directed(self):
-        return len(STRESSORS) * 2
+        return len(STRESSORS) * 2 + len(self.lit_sweep())
 
     SWEEP = 41478      # thorough tier: one run per (corpus instruction, token boundary) of engines/c16t.py
 
@@ -78,13 +90,25 @@ class C16(Engine):
         if self.tier == "thorough" and self.directed() <= index < self.directed() + self.SWEEP:
             from engines import c16t
             return c16t.C16T(self.tier, self.seed).plan(rng, index - self.directed() + (self.seed % 9) * len(c16t.pairs()))
+        if len(STRESSORS) * 2 <= index < self.directed():
+            # every corpus instruction with a literal and every table mnemonic, the literal replaced by a boundary / extreme value
+            from engines import c12
+            cpu, line = self.lit_sweep()[index - len(STRESSORS) * 2]
+            m = list(c12.NUM_LIT.finditer(line))
+            m = m[rng.below(len(m))]
+            v = rng.pick(c12.EXTREMES)
+            line = line[:m.start()] + ("%d" % v if v < 0 or rng.chance(1, 2) else "0x%x" % v) + line[m.end():]
+            return {"env": {"clock0": 1291231234, "heap_fill": rng.below(4), "heap_seed": rng.u64(), "stack_fill": rng.below(4),
+                            "stack_seed": rng.u64(), "chunk_seed": 0, "fd_limit": 0},
+                    "cpu": cpu, "files": {"/sim/w/a.asm": ".%s\n.org 0x%x\n  %s\n.db 7\n" % (cpu, rng.pick([0, 0x100, 0x1000]), line)},
+                    "argv": ["-o", "out.hex", "a.asm"], "faults": [], "stressors": ["literal-extreme"]}
         prog = progs.gen_program(rng, nstmts=rng.range(1, 8))
         files = {k: v.decode("latin-1") for k, v in progs.fs_for(prog).items()}
         plan = {"env": {"clock0": 1291231234 + rng.below(10 ** 8), "heap_fill": rng.below(4), "heap_seed": rng.u64(),
                         "stack_fill": rng.below(4), "stack_seed": rng.u64(),
                         "chunk_seed": rng.u64() if rng.chance(1, 3) else 0, "fd_limit": 0},
                 "cpu": prog["cpu"], "files": files, "argv": ["-o", "out.hex", "a.asm"], "faults": [], "stressors": []}
-        if index < self.directed():
+        if index < len(STRESSORS) * 2:
             kinds = [STRESSORS[index % len(STRESSORS)][0]]
         else:
             kinds = [rng.weighted(STRESSORS) for _ in range(rng.weighted([(1, 6), (2, 3), (3, 1)]))]
@@ -106,7 +130,17 @@ class C16(Engine):
         def add_line(line, at_end=True):
             files[main] = files[main] + line + "\n" if at_end else line + "\n" + files[main]
 
-        if kind == "cut":
+        if kind == "directive-mix":
+            # 1-5 directives dropped between the statements of a program that also has a .repeat block and a macro
+            w = "%x" % rng.below(1 << 16)
+            lines = files[main].split("\n")
+            lines += [".repeat 2", ".db 1", ".endr", ".macro dm_%s" % w, ".db 2", ".endm", "dm_%s" % w]
+            for _ in range(rng.range(1, 5)):
+                lines.insert(rng.range(1, len(lines)), rng.pick(DIRECTIVES) % {"w": w})
+            files[main] = "\n".join(lines) + "\n"
+            if rng.chance(1, 3):
+                plan["argv"] = ["-l"] + plan["argv"]
+        elif kind == "cut":
             target = rng.pick([main] + others())
             n = len(files[target])
             plan["faults"].append({"kind": "read_eof", "path": target, "nth": rng.pick([0, 1, 2]), "offset": rng.below(n + 1)})
